@@ -6,6 +6,7 @@
 -/
 import Ptk.Model.C12Session
 import Ptk.Props.C12
+import Ptk.Props.C12Fuel
 namespace Ptk.C12
 
 /-- the cache only ever holds the alignment and padding of the session -/
@@ -27,6 +28,27 @@ theorem lookup_eq {al : Align} {pad : Dim} {c : Cache} (hc : CacheOK al pad c) {
     the answers of a session on ONE object are, call by call, the answers of fresh splits for the
     current children and their current dimensions — whatever was divided before, at whatever
     available size. -/
+theorem callSplit_snd_eq_fresh {al : Align} {pad : Dim} {c : Cache} (hc : CacheOK al pad c)
+    (fuel : Nat) (horizontal : Bool) (filler : Dim) {call : Call}
+    (ha : call.al = al) (hp : call.pad = pad) :
+    (callSplit fuel horizontal filler c call).2 = fresh fuel horizontal filler call ∧
+    CacheOK al pad (callSplit fuel horizontal filler c call).1 := by
+  have hl := lookup_eq hc ha hp
+  unfold callSplit fresh
+  by_cases he : (horizontal && call.dims.isEmpty) = true
+  · rw [if_pos he]
+    simp only [Bool.and_eq_true] at he
+    refine ⟨?_, hc⟩
+    simp only [he.1, if_true]
+    unfold divideH
+    rw [if_pos he.2]
+  · rw [if_neg he]
+    simp only [hl]
+    refine ⟨trivial, ?_⟩
+    intro key a p h
+    simp only [Option.some.injEq, Prod.mk.injEq] at h
+    exact ⟨by rw [← h.2.1, ha], by rw [← h.2.2, hp]⟩
+
 theorem session_history_independent (fuel : Nat) (horizontal : Bool) (filler : Dim)
     (al : Align) (pad : Dim) :
     ∀ (calls : List Call) (c : Cache), CacheOK al pad c →
@@ -38,14 +60,10 @@ theorem session_history_independent (fuel : Nat) (horizontal : Bool) (filler : D
   | cons call rest ih =>
     intro c hc hall
     obtain ⟨ha, hp⟩ := hall call List.mem_cons_self
-    have hl := lookup_eq hc ha hp
-    simp only [runSession, callSplit, List.map_cons, hl, fresh]
+    obtain ⟨h1, h2⟩ := callSplit_snd_eq_fresh hc fuel horizontal filler ha hp
+    simp only [runSession, List.map_cons, h1]
     congr 1
-    apply ih
-    · intro key a p h
-      simp only [Option.some.injEq, Prod.mk.injEq] at h
-      exact ⟨by rw [← h.2.1, ha], by rw [← h.2.2, hp]⟩
-    · intro c' hc'; exact hall c' (List.mem_cons_of_mem _ hc')
+    exact ih _ h2 (fun c' hc' => hall c' (List.mem_cons_of_mem _ hc'))
 
 /-- in particular the answer to the last call does not depend on the calls before it -/
 theorem session_last_independent (fuel : Nat) (horizontal : Bool) (filler : Dim)
@@ -75,5 +93,98 @@ example : runSession 100 false ⟨0, 0, Gen.C12.defaultMax, 1⟩ none
     = [.ok [1], .ok [1]] ∧
     fresh 100 false ⟨0, 0, Gen.C12.defaultMax, 1⟩ ⟨[1], .start, ⟨0, 0, 0, 1⟩, [⟨1, 1, 1, 1⟩], 5, false⟩
     = .ok [1, 4] := by decide +kernel
+
+/-! ### sessions with the proved fuel (`runSessionB`, what the driver runs) -/
+
+/-- a single call with the proved fuel never runs out of fuel -/
+theorem divideH_bound_no_hang {al : Align} {filler pad : Dim} {children : List Dim}
+    (hf : filler.Valid) (hp : pad.Valid) (hc : ValidDims children) (avail : Nat) (done : Bool)
+    {F : Nat} (hF : fuelBound (allChildren al filler pad children) avail ≤ F) :
+    divideH F al filler pad children avail done ≠ .hang := by
+  unfold divideH
+  split_ifs
+  · simp
+  · exact divide_terminates_bound (allChildren_valid hf hp hc) avail _ hF
+
+theorem divideV_bound_no_hang {al : Align} {filler pad : Dim} {children : List Dim}
+    (hf : filler.Valid) (hp : pad.Valid) (hc : ValidDims children) (avail : Nat)
+    {F : Nat} (hF : fuelBound (allChildren al filler pad children) avail ≤ F) :
+    divideV F al filler pad children avail ≠ .hang := by
+  unfold divideV
+  simp only
+  split_ifs
+  · simp
+  · exact divide_terminates_bound (allChildren_valid hf hp hc) avail _ hF
+
+/-- the padding held by the cache is a valid dimension -/
+def CacheValid (c : Cache) : Prop := ∀ key a p, c = some (key, a, p) → p.Valid
+
+/-- **Sessions never run out of the proved fuel**: every call of a session on one object, run
+    with `fuelBound` of the list it really divides, answers `None` or sizes — whatever alignment
+    and padding the cache has frozen. -/
+theorem runSessionB_no_hang (horizontal : Bool) {filler : Dim} (hf : filler.Valid) :
+    ∀ (calls : List Call) (c : Cache), CacheValid c →
+      (∀ call ∈ calls, call.pad.Valid ∧ ValidDims call.dims) →
+      ∀ o ∈ runSessionB horizontal filler c calls, o ≠ .hang := by
+  intro calls
+  induction calls with
+  | nil => intro c _ _ o ho; simp [runSessionB] at ho
+  | cons call rest ih =>
+    intro c hc hall o ho
+    obtain ⟨hp, hd⟩ := hall call List.mem_cons_self
+    have hpv : (lookup c call).2.Valid := by
+      unfold lookup
+      rcases c with _ | ⟨key, a, p⟩
+      · exact hp
+      · simp only
+        split_ifs
+        · exact hc key a p rfl
+        · exact hp
+    -- what one call returns and leaves in the cache
+    have hcall : (callSplitB horizontal filler c call).2 ≠ .hang ∧
+        CacheValid (callSplitB horizontal filler c call).1 := by
+      unfold callSplitB callSplit
+      by_cases he : (horizontal && call.dims.isEmpty) = true
+      · simp only [if_pos he]
+        exact ⟨by simp, hc⟩
+      · simp only [if_neg he]
+        refine ⟨?_, ?_⟩
+        · split_ifs
+          · exact divideH_bound_no_hang hf hpv hd _ _ (le_refl _)
+          · exact divideV_bound_no_hang hf hpv hd _ (le_refl _)
+        · intro key a p h
+          simp only [Option.some.injEq, Prod.mk.injEq] at h
+          rw [← h.2.2]; exact hpv
+    simp only [runSessionB, List.mem_cons] at ho
+    rcases ho with rfl | ho
+    · exact hcall.1
+    · exact ih _ hcall.2 (fun c' hc' => hall c' (List.mem_cons_of_mem _ hc')) o ho
+
+/-- `runSessionB` is `runSession` call by call with the proved fuel: under the proviso of
+    `session_history_independent` it answers what fresh splits answer -/
+theorem runSessionB_fresh (horizontal : Bool) (filler : Dim) (al : Align) (pad : Dim) :
+    ∀ (calls : List Call) (c : Cache), CacheOK al pad c →
+      (∀ call ∈ calls, call.al = al ∧ call.pad = pad) →
+      runSessionB horizontal filler c calls = calls.map fun call =>
+        fresh (fuelBound (allChildren call.al filler call.pad call.dims) call.avail)
+          horizontal filler call := by
+  intro calls
+  induction calls with
+  | nil => intro c _ _; rfl
+  | cons call rest ih =>
+    intro c hc hall
+    obtain ⟨ha, hp⟩ := hall call List.mem_cons_self
+    have hl := lookup_eq hc ha hp
+    obtain ⟨h1, h2⟩ := callSplit_snd_eq_fresh hc
+      (fuelBound (allChildren call.al filler call.pad call.dims) call.avail) horizontal filler ha hp
+    simp only [runSessionB, callSplitB, List.map_cons, hl, h1]
+    congr 1
+    exact ih _ h2 (fun c' hc' => hall c' (List.mem_cons_of_mem _ hc'))
+
+example : runSessionB false ⟨0, 0, Gen.C12.defaultMax, 1⟩ none
+    [⟨[1, 2], .justify, ⟨0, 0, 0, 1⟩, [⟨2, 4, 6, 1⟩, ⟨1, 3, Gen.C12.defaultMax, 1⟩], 20, false⟩,
+     ⟨[1, 2], .justify, ⟨0, 0, 0, 1⟩, [⟨8, 10, 12, 1⟩, ⟨1, 3, 5, 1⟩], 20, false⟩,
+     ⟨[1, 2], .justify, ⟨0, 0, 0, 1⟩, [⟨15, 15, 15, 1⟩, ⟨10, 10, 10, 1⟩], 20, false⟩]
+    = [.ok [6, 0, 14], .ok [12, 0, 5], .tooSmall] := by decide +kernel
 
 end Ptk.C12
